@@ -64,7 +64,11 @@ Fresh(d) == d.exists = 1 /\ d.complete = 1
 VARIABLES final, staging, lock, pc, wi, ri, out, hist
 vars == <<final, staging, lock, pc, wi, ri, out, hist>>
 
-Log(t, a) == hist' = IF EmitOn THEN Append(hist, [t |-> t, a |-> a]) ELSE hist
+\* the schedule, with the directory state AFTER each step (compared with the real directories by the replay)
+Summary(d) == [exists |-> d.exists, complete |-> d.complete, rgs |-> {i \in Rgs : d.rg[i] # 0}]
+Log(t, a) == hist' = IF EmitOn THEN Append(hist, [t |-> t, a |-> a, final |-> Summary(final'),
+                                                  staging |-> {p \in Procs : staging'[p].exists = 1}])
+                     ELSE hist
 Goto(t, l) == pc' = [pc EXCEPT ![t] = l]
 Finish(t, o) == /\ pc' = [pc EXCEPT ![t] = "done"] /\ out' = [out EXCEPT ![t] = o]
 Unlock(t) == [lock EXCEPT ![LockOf(ProcOf(t))] = IF @ = t THEN 0 ELSE @]
@@ -78,29 +82,30 @@ CheckFresh(t) ==
      ELSE IF Fresh(final) THEN Goto(t, "read")
      ELSE IF ProcOf(t) \in AutoProcs THEN Goto(t, "parquet")
      ELSE Goto(t, "lock")
-  /\ Log(t, "CheckFresh")
   /\ UNCHANGED <<final, staging, lock, wi, ri, out>>
+  /\ Log(t, "CheckFresh")
 
 ParquetRead(t) ==
   /\ pc[t] = "parquet"
-  /\ Finish(t, "parquet") /\ Log(t, "ParquetRead")
+  /\ Finish(t, "parquet")
   /\ UNCHANGED <<final, staging, lock, wi, ri>>
+  /\ Log(t, "ParquetRead")
 
 LockInProcess(t) ==
   /\ pc[t] = "lock"
   /\ lock[LockOf(ProcOf(t))] = 0
   /\ lock' = [lock EXCEPT ![LockOf(ProcOf(t))] = t]
   /\ Goto(t, IF Variant = 3 THEN "mkstaging" ELSE "recheck")          \* mutant 3: no re-check
-  /\ Log(t, "LockInProcess")
   /\ UNCHANGED <<final, staging, wi, ri, out>>
+  /\ Log(t, "LockInProcess")
 
 RecheckFresh(t) ==
   /\ pc[t] = "recheck"
   /\ IF Fresh(final)
      THEN /\ Goto(t, "read") /\ lock' = Unlock(t)
      ELSE /\ Goto(t, "mkstaging") /\ UNCHANGED lock
-  /\ Log(t, "RecheckFresh")
   /\ UNCHANGED <<final, staging, wi, ri, out>>
+  /\ Log(t, "RecheckFresh")
 
 \* ---- build_sidecar ----------------------------------------------------------------
 InFinal == Variant = 2
@@ -110,8 +115,8 @@ MkStaging(t) ==
      ELSE /\ staging' = [staging EXCEPT ![ProcOf(t)] = EmptyDir] /\ UNCHANGED final
   /\ wi' = [wi EXCEPT ![t] = 1]
   /\ Goto(t, IF Variant = 1 THEN "complete" ELSE IF NRg = 0 THEN "complete" ELSE "write")
-  /\ Log(t, "MkStaging")
   /\ UNCHANGED <<lock, ri, out>>
+  /\ Log(t, "MkStaging")
 
 AfterWrites(t) == IF Variant = 1 THEN (IF InFinal THEN "published" ELSE "remove") ELSE "complete"
 WriteRg(t) ==
@@ -129,22 +134,23 @@ WriteRg(t) ==
           /\ wi' = [wi EXCEPT ![t] = i + 1]
           /\ Goto(t, IF i = NRg THEN AfterWrites(t) ELSE "write")
           /\ UNCHANGED final
-  /\ Log(t, "WriteRg")
   /\ UNCHANGED <<lock, ri, out>>
+  /\ Log(t, "WriteRg")
 
 WriteComplete(t) ==
   /\ pc[t] = "complete"
   /\ IF InFinal THEN /\ final.exists = 1 /\ final' = [final EXCEPT !.complete = 1] /\ UNCHANGED staging
      ELSE /\ staging' = [staging EXCEPT ![ProcOf(t)].complete = 1] /\ UNCHANGED final
   /\ Goto(t, IF Variant = 1 /\ NRg > 0 THEN "write" ELSE IF InFinal THEN "published" ELSE "remove")
-  /\ Log(t, "WriteComplete")
   /\ UNCHANGED <<lock, wi, ri, out>>
+  /\ Log(t, "WriteComplete")
 
 \* mutant 2 has nothing to publish: ensure_sidecar returns
 Published(t) ==
   /\ pc[t] = "published"
-  /\ lock' = Unlock(t) /\ Goto(t, StartRead(t)) /\ Log(t, "Published")
+  /\ lock' = Unlock(t) /\ Goto(t, StartRead(t))
   /\ UNCHANGED <<final, staging, wi, ri, out>>
+  /\ Log(t, "Published")
 
 RemoveFinal(t) ==
   /\ pc[t] = "remove"
@@ -153,21 +159,22 @@ RemoveFinal(t) ==
      ELSE IF AtomicRemove \/ final.exists = 0
           THEN /\ final' = NoDir /\ Goto(t, "rename")
           ELSE /\ Goto(t, "removing") /\ UNCHANGED final
-  /\ Log(t, "RemoveFinal")
   /\ UNCHANGED <<staging, lock, wi, ri, out>>
+  /\ Log(t, "RemoveFinal")
 
 RemoveFinalFile(t, f) ==          \* f = 0: .complete, f in Rgs: rg file
   /\ pc[t] = "removing" /\ final.exists = 1
   /\ IF f = 0 THEN final.complete # 0 /\ final' = [final EXCEPT !.complete = 0]
      ELSE final.rg[f] # 0 /\ final' = [final EXCEPT !.rg[f] = 0]
-  /\ Log(t, "RemoveFinalFile")
   /\ UNCHANGED <<staging, lock, pc, wi, ri, out>>
+  /\ Log(t, "RemoveFinalFile")
 
 RemoveFinalDir(t) ==
   /\ pc[t] = "removing"
   /\ (final.exists = 0 \/ IsEmpty(final))
-  /\ final' = NoDir /\ Goto(t, "rename") /\ Log(t, "RemoveFinalDir")
+  /\ final' = NoDir /\ Goto(t, "rename")
   /\ UNCHANGED <<staging, lock, wi, ri, out>>
+  /\ Log(t, "RemoveFinalDir")
 
 RenameStaging(t) ==
   /\ pc[t] = "rename"
@@ -176,14 +183,15 @@ RenameStaging(t) ==
      THEN /\ final' = staging[p] /\ staging' = [staging EXCEPT ![p] = NoDir]
           /\ lock' = Unlock(t) /\ Goto(t, StartRead(t))
      ELSE /\ Goto(t, "cleanup") /\ UNCHANGED <<final, staging, lock>>
-  /\ Log(t, "RenameStaging")
   /\ UNCHANGED <<wi, ri, out>>
+  /\ Log(t, "RenameStaging")
 
 CleanupStaging(t) ==
   /\ pc[t] = "cleanup"
   /\ staging' = [staging EXCEPT ![ProcOf(t)] = NoDir]
-  /\ lock' = Unlock(t) /\ Goto(t, StartRead(t)) /\ Log(t, "CleanupStaging")
+  /\ lock' = Unlock(t) /\ Goto(t, StartRead(t))
   /\ UNCHANGED <<final, wi, ri, out>>
+  /\ Log(t, "CleanupStaging")
 
 \* ---- read_row_group ----------------------------------------------------------------
 OpenRg(t) ==
@@ -195,11 +203,13 @@ OpenRg(t) ==
         ELSE IF st = 3 THEN Finish(t, "wrong") /\ UNCHANGED ri         \* rows of an older version
         ELSE IF i = NRg THEN Finish(t, "ok") /\ UNCHANGED ri
         ELSE ri' = [ri EXCEPT ![t] = i + 1] /\ UNCHANGED <<pc, out>>
-  /\ Log(t, "OpenRg")
   /\ UNCHANGED <<final, staging, lock, wi>>
+  /\ Log(t, "OpenRg")
 
-Init == /\ \E k \in Inits : /\ final = IF k = 0 THEN NoDir ELSE IF k = 1 THEN FullDir(1, 2) ELSE FullDir(2, 3)
-                              /\ hist = IF EmitOn THEN <<[t |-> k, a |-> "Init"]>> ELSE <<>>
+InitDir(k) == IF k = 0 THEN NoDir ELSE IF k = 1 THEN FullDir(1, 2) ELSE FullDir(2, 3)
+Init == /\ \E k \in Inits :
+             /\ final = InitDir(k)
+             /\ hist = IF EmitOn THEN <<[t |-> k, a |-> "Init"]>> ELSE <<>>
         /\ staging = [p \in Procs |-> NoDir]
         /\ lock = [l \in Locks |-> 0]
         /\ pc = [t \in Threads |-> "start"]
@@ -239,6 +249,5 @@ NoDeadlock == Running => \E t \in Threads : CanMove(t)
 \* ---- case emission: one complete behaviour per line --------------------------------------
 Emit == (EmitOn /\ ~Running) =>
           EmitCase([nprocs |-> NProcs, per |-> ThreadsPer, auto |-> AutoProcs, nrg |-> NRg,
-                    init |-> hist[1].t, steps |-> Tail(hist), out |-> out,
-                    final |-> [exists |-> final.exists, complete |-> final.complete, rgs |-> {i \in Rgs : final.rg[i] # 0}]])
+                    init |-> hist[1].t, steps |-> Tail(hist), out |-> out, final |-> Summary(final)])
 ====
